@@ -365,7 +365,7 @@ class StructureMetaType(MetaType):
 
             if field.bits:
                 if isinstance(field_type, EnumMetaType):
-                    bit_buffer.write(field_type.type, value.value, field.bits)
+                    bit_buffer.write(field_type.type, getattr(value, "value", value), field.bits)
                 else:
                     bit_buffer.write(field_type, value, field.bits)
             else:
